@@ -27,7 +27,8 @@ RULE = ("ACLs of 1..12 uniquely tagged entries with heading remarks placed anywh
         "operation sequence shape)"
         " Round 4: member lists replaced in place between two TCAM estimates."
         " Round 5: group(prefix) again after blocks moved; one group name on both sides with different member counts."
-        " Rounds 6-7: items assigned to themselves through the setter.")
+        " Rounds 6-7: items assigned to themselves through the setter."
+        " Round 8: loose remark appended behind the blocks; standard ACLs with group sources.")
 ASSUMPTIONS = ["duplicate group headings are merged by Acl.group on purpose (CHANGELOG 3.2.4): with duplicates only the multiset of "
                "entries and the order inside each heading bucket are demanded", "permutations are applied through the list "
                "methods (in place); assigning Acl.items regroups and recreates the blocks (known finding "
